@@ -24,7 +24,22 @@ LEVEL_TEXT = (
 )
 
 
-class BufCfg(ThreadCfg):
+class HelperCfg(ThreadCfg):
+    """Module-level helper functions of the module under analysis are followed too (a partner predicate moved out of the method
+    and bound with functools.partial is still the predicate)."""
+
+    def inline(self, call, ft, rc, st):
+        got = super().inline(call, ft, rc, st)
+        if got:
+            return got
+        if isinstance(call.func, ast.Name) and st.module is not None and call.func.id in getattr(st.module, "functions", {}) and call.func.id not in st.env and call.func.id not in self.no_inline:
+            fi = st.module.functions[call.func.id]
+            if not any(isinstance(n, (ast.Yield, ast.YieldFrom)) for n in ast.walk(fi.node)):
+                return fi, st.selfcls, None
+        return None
+
+
+class BufCfg(HelperCfg):
     IN = "event_list"  # set from the source in run(): first parameter of _group_events
     OUT = "grouped"  # the list _group_events returns
 
@@ -122,7 +137,7 @@ def run(ctx) -> None:
         q = params[0]
         fi_ = boolified(FuncInfo(node.name, f"{gf.qualname}.<locals>.{node.name}", node, gf.module, None))
         ok, why, ntrue = True, "", 0
-        for p in Enumerator(ThreadCfg(P, follow_attrs=False)).run(fi_, selfcls="InotifyBuffer"):
+        for p in Enumerator(HelperCfg(P, follow_attrs=False)).run(fi_, selfcls="InotifyBuffer"):
             if p.outcome[0] != "return" or not isinstance(p.outcome[1], ast.Constant):
                 ok, why = False, f"does not return a truth value on [{p.sig()[:60]}]"
                 continue
